@@ -190,6 +190,9 @@ pub enum Op {
     Del(usize, DataValue, DataValue),
     /// one pass of the compactor (only in `nobg` cases)
     Compact,
+    /// DELETE FROM t WHERE <key range on column c>: the DELETE's scan carries the row-handler column
+    /// and (for an INT first-column primary key) the pushed KeyRange
+    DelRange(usize, Bnd, Bnd),
 }
 
 /// One SQL query to run, with what the python side needs to judge it.
@@ -219,6 +222,9 @@ pub struct ScanReq {
     pub cols: Vec<usize>,
     pub range: Option<(Bnd, Bnd)>,
     pub sorted: bool,
+    /// the scan list also holds the row-handler column (`_rowid_`), as a DELETE's scan does:
+    /// 0 = no, 1 = after the columns, 2 = before them
+    pub handler: u8,
 }
 
 #[derive(Clone, Debug)]
@@ -314,6 +320,20 @@ impl Case {
                 sql_lit(b)
             ),
             Op::Compact => "-- one compaction pass".to_string(),
+            Op::DelRange(c, lo, hi) => {
+                let mut atoms = vec![];
+                match lo {
+                    Bnd::Incl(v) => atoms.push(format!("{} >= {}", colname(*c), sql_lit(v))),
+                    Bnd::Excl(v) => atoms.push(format!("{} > {}", colname(*c), sql_lit(v))),
+                    Bnd::Unb => {}
+                }
+                match hi {
+                    Bnd::Incl(v) => atoms.push(format!("{} <= {}", colname(*c), sql_lit(v))),
+                    Bnd::Excl(v) => atoms.push(format!("{} < {}", colname(*c), sql_lit(v))),
+                    Bnd::Unb => {}
+                }
+                format!("delete from t where {}", atoms.join(" and "))
+            }
         };
         s.replace("insert into t ", &format!("insert into {table} ")).replace("delete from t ", &format!("delete from {table} "))
     }
@@ -337,6 +357,7 @@ impl Case {
                 ),
                 Op::Del(c, a, b) => format!("(del {} {} {})", c, canon_value(a), canon_value(b)),
                 Op::Compact => "(compact)".to_string(),
+                Op::DelRange(c, lo, hi) => format!("(delr {} {} {})", c, bnd_sexp(lo), bnd_sexp(hi)),
             })
             .collect() };
         let ops = ser(&self.ops);
@@ -422,6 +443,7 @@ impl Case {
                             .collect(),
                     ),
                     "compact" => Op::Compact,
+                    "delr" => Op::DelRange(atom(&l[1]).parse().unwrap(), bnd_of_sexp(&l[2]), bnd_of_sexp(&l[3])),
                     _ => Op::Del(atom(&l[1]).parse().unwrap(), parse_val(&atom(&l[2])), parse_val(&atom(&l[3]))),
                 }
             })
@@ -438,6 +460,7 @@ impl Case {
                             .collect(),
                     ),
                     "compact" => Op::Compact,
+                    "delr" => Op::DelRange(atom(&l[1]).parse().unwrap(), bnd_of_sexp(&l[2]), bnd_of_sexp(&l[3])),
                     _ => Op::Del(atom(&l[1]).parse().unwrap(), parse_val(&atom(&l[2])), parse_val(&atom(&l[3]))),
                 }
             })
@@ -483,13 +506,14 @@ pub fn bnd_sexp(b: &Bnd) -> String {
 
 pub fn scan_sexp(s: &ScanReq) -> String {
     format!(
-        "(s (cols {}) {} {})",
+        "(s (cols {}) {} {} {})",
         s.cols.iter().map(|c| c.to_string()).collect::<Vec<_>>().join(" "),
         match &s.range {
             None => "none".to_string(),
             Some((lo, hi)) => format!("(range {} {})", bnd_sexp(lo), bnd_sexp(hi)),
         },
-        s.sorted
+        s.sorted,
+        s.handler
     )
 }
 
@@ -514,7 +538,7 @@ pub fn scan_of_sexp(s: &Sexp) -> ScanReq {
         Sexp::Atom(_) => None,
         Sexp::List(r) => Some((bnd_of_sexp(&r[1]), bnd_of_sexp(&r[2]))),
     };
-    ScanReq { cols, range, sorted: l[3].as_atom() == Some("true") }
+    ScanReq { cols, range, sorted: l[3].as_atom() == Some("true"), handler: l.get(4).and_then(|x| x.as_atom()).and_then(|x| x.parse().ok()).unwrap_or(0) }
 }
 
 // ---------------------------------------------------------------------------------------------
@@ -592,11 +616,22 @@ pub fn run_case(c: &Case, workdir: &str) -> (String, String) {
         notes.push(format!("create:{}", o.class()));
     }
     let mut blocks: Vec<String> = vec![];
+    let mut delobs: Vec<String> = vec![];
     let mut next_rs = 0usize;
     for op in &c.ops {
         if let Op::Compact = op {
             if let Err(e) = d.compact_once() {
                 notes.push(format!("compact:{}", e.replace(' ', "_")));
+            }
+        } else if let Op::DelRange(..) = op {
+            // oracle of a key-range DELETE: rows before, reported count, rows after
+            let all = format!("select {} from t", (0..ncols).map(colname).collect::<Vec<_>>().join(", "));
+            let before = d.sql(&all);
+            let del = d.sql(&c.op_sql(op));
+            let after = d.sql(&all);
+            delobs.push(format!("(delobs {} (before {}) (count {}) (after {}))", delobs.len(), outcome_sexp(&before), outcome_sexp(&del), outcome_sexp(&after)));
+            if del.class() == "err" {
+                notes.push("op:err".to_string());
             }
         } else {
             let o = d.sql(&c.op_sql(op));
@@ -604,7 +639,7 @@ pub fn run_case(c: &Case, workdir: &str) -> (String, String) {
                 notes.push(format!("op:{}", o.class()));
             }
         }
-        if !matches!(op, Op::Del(..)) {
+        if !matches!(op, Op::Del(..) | Op::DelRange(..)) {
             // block row counts of the new row-set, per column: chunk sizes of a one-column scan
             let mut per_col = vec![];
             for col in 0..ncols {
@@ -696,7 +731,12 @@ pub fn run_case(c: &Case, workdir: &str) -> (String, String) {
     // storage-level scans
     let mut sobs = vec![];
     for s in &c.scans {
-        let cols: Vec<StorageColumnRef> = s.cols.iter().map(|c| StorageColumnRef::Idx(*c as u32)).collect();
+        let mut cols: Vec<StorageColumnRef> = s.cols.iter().map(|c| StorageColumnRef::Idx(*c as u32)).collect();
+        match s.handler {
+            1 => cols.push(StorageColumnRef::RowHandler),
+            2 => cols.insert(0, StorageColumnRef::RowHandler),
+            _ => {}
+        }
         let r = d.storage_scan("t", &cols, kr(&s.range), s.sorted);
         sobs.push(match r {
             Ok(chunks) => format!("(ok {})", render_rows(chunks.into_iter().flatten().collect(), false)),
@@ -725,12 +765,13 @@ pub fn run_case(c: &Case, workdir: &str) -> (String, String) {
         c.scans.iter().map(scan_sexp).collect::<Vec<_>>().join(" ")
     );
     let obs = format!(
-        "(obs {} (notes {}) {} (results {}) (scans {}))",
+        "(obs {} (notes {}) {} (results {}) (scans {}) (deletes {}))",
         c.id,
         notes.join(" "),
         lay_s,
         qobs.join(" "),
-        sobs.join(" ")
+        sobs.join(" "),
+        delobs.join(" ")
     );
     (req, obs)
 }
